@@ -463,6 +463,28 @@ pub fn run(tier: &str, seed: u64, only: Option<&str>) -> Run {
                                 let c = Case { mode, attrs, spinners: 0, passed, origin, worst, acc: Some(acc), fields };
                                 cx.case(c, "exhaustive-small", None);
                             }
+                            // a provided combo is not a hit result: the play is still "specified by accuracy"
+                            // and the generated distribution must stay optimal whatever combo accompanies it
+                            // (seed C13-catch-tiny-window-uses-clamped-combo displaced the search window by
+                            // the clamped combo). Every 5th target x a few combos, modes with a combo field.
+                            if mode != MANIA {
+                                let mc = match mode {
+                                    CATCH => attrs[0] + attrs[1],
+                                    _ => attrs[0],
+                                };
+                                let mut combos = vec![0, 1, mc / 2, mc.saturating_sub(1), mc, mc + 3];
+                                combos.sort_unstable();
+                                combos.dedup();
+                                for &acc in targets.iter().step_by(5) {
+                                    for &cb in &combos {
+                                        let mut fields = vec![None; nf];
+                                        fields[MISS_IDX[mode as usize]] = mo;
+                                        fields[0] = Some(cb);
+                                        let c = Case { mode, attrs, spinners: 0, passed, origin, worst, acc: Some(acc), fields };
+                                        cx.case(c, "exhaustive-small-combo", None);
+                                    }
+                                }
+                            }
                         }
                     }
                 }
